@@ -362,6 +362,19 @@ func storeLeg(c *harness.Ctx, rng *rand.Rand, idx desync.Index, raw []byte, sha2
 				start += p.Chunks[k].Size
 			}
 		}
+		if rng.Intn(3) == 0 {
+			// the very same chunk table under other parameters (the same blob indexed again with other chunk sizes that
+			// happen to cut it the same way - a blob below the minimum size always does -, or with other feature flags):
+			// what is read back must be the later index, not the earlier one
+			p = idx
+			p.Index.ChunkSizeMin = idx.Index.ChunkSizeMin/2 + 1
+			if rng.Intn(2) == 0 {
+				p.Index.ChunkSizeAvg = idx.Index.ChunkSizeAvg + 1
+			}
+			if rng.Intn(2) == 0 {
+				p.Index.FeatureFlags ^= desync.CaFormatExcludeNoDump
+			}
+		}
 		prev = &p
 	}
 	pre := func(s desync.IndexWriteStore) error {
